@@ -38,9 +38,26 @@ theorem items_checked {α} (f : Nat → α → Bool) (L : List (List α)) (n : N
 
 /-! ### W4/W6/W7: links -/
 
+theorem nonIncr_cons (a : Rat) (l : List Rat) (h : bfsOk.nonIncr (a :: l) = true) :
+    (∀ b ∈ l, b ≤ a) ∧ bfsOk.nonIncr l = true := by
+  induction l generalizing a with
+  | nil => exact ⟨by simp, rfl⟩
+  | cons b r ih =>
+    simp only [bfsOk.nonIncr, Bool.and_eq_true, decide_eq_true_eq] at h
+    obtain ⟨hba, hr⟩ := h
+    refine ⟨?_, hr⟩
+    intro c hc
+    rcases List.mem_cons.1 hc with rfl | hc
+    · exact hba
+    · exact le_trans ((ih b hr).1 c hc) hba
+
 theorem nonIncr_spec (l : List Rat) (h : bfsOk.nonIncr l = true) :
     l.Pairwise (fun a b => b ≤ a) := by
-  sorry
+  induction l with
+  | nil => exact List.Pairwise.nil
+  | cons a r ih =>
+    obtain ⟨h1, h2⟩ := nonIncr_cons a r h
+    exact List.pairwise_cons.2 ⟨h1, ih h2⟩
 
 theorem nodupNames_spec (l : List (List Nat)) (h : bfsOk.nodupNames l = true) : l.Nodup := by
   induction l with
@@ -55,31 +72,65 @@ theorem linksOk_meaning (ds : Dataset) (i : Nat) (ls : List Link) (h : linksOk d
     (ls.map (·.bf)).Pairwise (fun a b => b ≤ a) ∧ (ls.map (·.name)).Nodup ∧
     (∀ l ∈ ls, ∀ k, l.idx = some k → i < k ∧ k < ds.n ∧ get2 ds.names k [] = l.name) ∧
     (get2 ds.rate i 0 = 0 ↔ ls = []) := by
-  sorry
+  unfold linksOk bfsOk at h
+  simp only [Bool.and_eq_true, List.all_eq_true, decide_eq_true_eq] at h
+  obtain ⟨⟨⟨⟨⟨⟨hbf, hsum⟩, hni⟩, hnd⟩, hidx⟩, hst⟩, _⟩ := h
+  refine ⟨hbf, hsum, nonIncr_spec _ hni, nodupNames_spec _ hnd, ?_, ?_⟩
+  · intro l hl k hk
+    have := (hidx l hl).1
+    rw [hk] at this
+    simpa [Bool.and_eq_true, decide_eq_true_eq, beq_iff_eq, and_assoc] using this
+  · by_cases hr : get2 ds.rate i 0 = 0
+    · simp only [hr, beq_self_eq_true, if_true, List.isEmpty_iff] at hst
+      simp [hr, hst]
+    · have hne : (get2 ds.rate i 0 == 0) = false := by simpa using hr
+      simp only [hne, Bool.false_eq_true, if_false, Bool.not_eq_true', List.isEmpty_eq_false_iff] at hst
+      simp [hr, hst]
 
 /-! ### `parents` is the transpose of `links` -/
 
 theorem parents_meaning (ds : Dataset) (k : Nat) (ps : List (Nat × Rat))
     (h : parentsBwdOk ds k ps = true) :
     ∀ p ∈ ps, ∃ l ∈ get2 ds.links p.1 [], l.idx = some k ∧ l.bf = p.2 := by
-  sorry
+  unfold parentsBwdOk at h
+  simp only [Bool.and_eq_true, List.all_eq_true, List.any_eq_true, beq_iff_eq] at h
+  exact h.1
 
 theorem parents_complete (ds : Dataset) (j : Nat) (ls : List Link)
     (h : parentsFwdOk ds j ls = true) :
     ∀ l ∈ ls, ∀ k, l.idx = some k → (j, l.bf) ∈ get2 ds.parents k [] := by
-  sorry
+  unfold parentsFwdOk at h
+  simp only [List.all_eq_true] at h
+  intro l hl k hk
+  have := h l hl
+  rw [hk] at this
+  simpa using this
 
 /-! ### W6 on the matrix side -/
 
 theorem stableCols_meaning (rate : Rates) (i : Nat) (r : Row) (h : stableColsOk rate i r = true) :
     ∀ e ∈ r, e.col = i ∨ get2 rate e.col 0 ≠ 0 := by
-  sorry
+  unfold stableColsOk at h
+  simpa only [List.all_eq_true, Bool.or_eq_true, beq_iff_eq, bne_iff_ne] using h
 
 /-! ### W3 -/
 
 theorem rateOk_meaning (yearDays : Rat) (hl : HL) (r : Rat) (h : rateOk yearDays hl r = true) :
     (hl.val = none → r = 0) ∧
     (∀ v, hl.val = some v → ∃ s, unitSeconds yearDays hl.unit = some s ∧ 0 < v ∧ r * (v * s) = 1) := by
-  sorry
+  unfold rateOk at h
+  split at h
+  · rename_i hv
+    refine ⟨fun _ => by simpa using h, ?_⟩
+    intro v hv'; rw [hv] at hv'; cases hv'
+  · rename_i v hv
+    refine ⟨fun hn => (by rw [hv] at hn; cases hn), ?_⟩
+    intro v' hv'
+    rw [hv] at hv'; cases hv'
+    split at h
+    · cases h
+    · rename_i s hs
+      simp only [Bool.and_eq_true, decide_eq_true_eq, beq_iff_eq] at h
+      exact ⟨s, hs, h.1, h.2⟩
 
 end RdVerif
